@@ -86,9 +86,14 @@ class FleetStore(Store):
         This process waits for the activate_fleet event to be triggered.
         """
         while True:
-            timeout_event = self.env.timeout(self.delay)
-            event_list= [timeout_event, self.activate_fleet]
-            yield self.env.any_of(event_list)
+            if self.delay > 0:
+                timeout_event = self.env.timeout(self.delay)
+                event_list= [timeout_event, self.activate_fleet]
+                yield self.env.any_of(event_list)
+            else:
+                # no waiting delay: the fleet departs as soon as something is loaded (see _do_put);
+                # polling with timeout(0) would never let the clock advance
+                yield self.activate_fleet
             
             print(f"T={self.env.now:.2f}: Fleet activation process triggered.")
             
@@ -689,7 +694,7 @@ class FleetStore(Store):
             self.items.append(item)
             self._update_time_averaged_level()
             self._trigger_reserve_get(None)
-            if len(self.items) + len(self.ready_items) == self.capacity:
+            if len(self.items) + len(self.ready_items) == self.capacity or self.delay <= 0:
                 #self.activate_fleet = self.env.event()
                 if not self.activate_fleet.triggered:
                     self.activate_fleet.succeed()  # Trigger fleet activation if capacity is reached
